@@ -578,12 +578,21 @@ func (op *ShellOperator) taskHandleHookRun(t task.Task) queue.TaskResult {
 			}
 		}
 		if shouldCombine {
+			// The combined task should not allow failure if one of the combined tasks does not allow it.
+			allowFailure := hookMeta.AllowFailure
 			combineResult := op.combineBindingContextForHook(op.TaskQueues, op.TaskQueues.GetByName(t.GetQueueName()), t, func(tsk task.Task) bool {
 				tskMeta := task_metadata.HookMetadataAccessor(tsk)
 				// Do not combine Synchronization that should not run the hook ("executeHookOnSynchronization: false").
-				return tskMeta.IsSynchronization() && !tskMeta.ExecuteOnSynchronization
+				if tskMeta.IsSynchronization() && !tskMeta.ExecuteOnSynchronization {
+					return true
+				}
+				if !tskMeta.AllowFailure {
+					allowFailure = false
+				}
+				return false
 			})
 			if combineResult != nil {
+				hookMeta.AllowFailure = allowFailure
 				hookMeta.BindingContext = combineResult.BindingContexts
 				// Extra monitor IDs can be returned if several Synchronization for Group are combined.
 				if len(combineResult.MonitorIDs) > 0 {
